@@ -8,6 +8,7 @@ package zitiql
 //@   trusted generated ANTLR parser; only the listener precondition is stated
 //@   requires[parser-listens] lsnAny[p.BaseParser.BaseRecognizer]
 //@   modifies *
+//@   ensures lsn == old(lsn)
 
 // Errors are listened to (C10): the caller's listener is registered on the lexer and on the parser
 // before parsing starts, so text that is not a sentence of the grammar is reported, not repaired.
@@ -33,5 +34,6 @@ package zitiql
 // an offending symbol that is not a token (the lexer passes nil) must not be dereferenced
 //@ func (*ErrorListener).SyntaxError
 //@   props C10
+//@   assume offendingSymbol == nil || ref(offendingSymbol) != 0
 //@   modifies el.Errors
 //@   ensures[recorded] len(el.Errors) == old(len(el.Errors)) + 1
